@@ -1,13 +1,16 @@
 // diff: the correspondence / oracle harness. For one stream it generates inputs from VERIF_SEED,
 // runs the REAL implementation in-process (with recover) and writes
-//   <out>/<stream>.cases   one input line per case (fed unchanged to modeldrv and oracle)
-//   <out>/<stream>.impl    the implementation's canonicalised output per case
-//   <out>/<stream>.stats.json  input distribution actually hit
+//
+//	<out>/<stream>.cases   one input line per case (fed unchanged to modeldrv and oracle)
+//	<out>/<stream>.impl    the implementation's canonicalised output per case
+//	<out>/<stream>.stats.json  input distribution actually hit
 package main
 
 import (
 	"flag"
 	"fmt"
+	"io"
+	"log"
 	"os"
 
 	"verif/harness/internal/cases"
@@ -37,6 +40,11 @@ func main() {
 		fmt.Fprintf(os.Stderr, "unknown stream %q\n", *stream)
 		os.Exit(2)
 	}
+	// every second client is built with the debug flag on and prints every message: results go to files
+	if devnull, err := os.OpenFile(os.DevNull, os.O_WRONLY, 0); err == nil {
+		os.Stdout = devnull
+	}
+	log.SetOutput(io.Discard)
 	c := &ctx{w: cases.New(*out, *stream), r: rng.New(*seed), tier: *tier, scale: *scale}
 	c.w.Only = *only
 	if *tier == "thorough" {
